@@ -13,7 +13,11 @@
    3. [nonlifo_leave_reuse]: the same for a leave of a scope that is not the
       innermost one (arena_scope_leave validates nothing): enter A, enter B,
       allocate in B, leave A, enter C, allocate in C - the block of B, a scope
-      that was never left, is handed out again.
+      that was never left, is handed out again.  C19 quantifies over all sequences
+      of enter/leave: this and [hits_header] are the _refuted witnesses of "leaving
+      a scope invalidates only that scope's blocks" / "detected instead of silently
+      corrupting" outside the LIFO guard (known finding nonlifo-leave-undetected;
+      the oracle's verdict on these runs: ArenaOracle.nonlifo_flagged_builds).
    4. [outer_shrink_traps_validated]: with the repaired source (c_sv) hole 1 is closed. *)
 From Robsd Require Import Base.Bytes Arena.ArenaDefs Arena.ArenaSpec Arena.ArenaProofs Arena.ArenaInv Arena.ArenaThms.
 From RobsdGen Require Import Gen_Arena.
@@ -63,7 +67,7 @@ Proof.
         assert (Hv : validate (st_a st) s = false).
         { pose proof (reach_inv c Hwf _ _ R) as [G _ _]. rewrite Hf in G. unfold validate.
           apply (outer_not_validated c _ _ _ _ _ _ _ G Hs Hk). }
-        rewrite Hv. cbn [negb]. rewrite andb_true_r.
+        rewrite Hv, (gv_true c Hwf). cbn [negb andb]. rewrite andb_true_r.
         destruct (N.leb_spec new old) as [Hle|Hgt]; [|discriminate].
         destruct (c_sv c) eqn:Esv; [discriminate|].
         intros H; inversion H; subst; clear H. exists p, old, new.
@@ -155,7 +159,7 @@ Proof.
     rewrite Hl. pose proof (bump_ge c Hwf (f_size fr) (f_len fr + size) Hfit). lia.
   - assert (Hnofit : f_size fr < f_len fr + size).
     { apply push_none in Ep. destruct Ep as [H|H]; [assumption|]. unfold SIZE_LIMIT in *. lia. }
-    pose proof Hwf as (W1 & W2 & W3 & W4 & W5 & W6 & W7 & W8).
+    pose proof Hwf as (W1 & W2 & W3 & W4 & W5 & W6 & W7 & W8 & _).
     assert (E1 : (SIZE_LIMIT <=? size + c_hdr c) || (SIZE_LIMIT <=? c_gap c + (size + c_hdr c)) = false).
     { apply orb_false_iff. split; apply N.leb_gt; unfold SIZE_LIMIT; lia. }
     rewrite E1.
@@ -394,7 +398,7 @@ Qed.
 
 (* ---- 5. the detection clause at full strength, for a source that validates the shrinking path ------
    [api_full] drops the one narrowing of [api_okb] that concerned the use of an outer scope:
-   realloc of ANY live user block, named with its true size, through ANY open scope. *)
+   realloc of ANY live user block, named with its size or a positive part of it, through ANY open scope. *)
 Lemma api_full_realloc g k p old new :
   api_full g (Realloc k (Some p) old new) =
   scope_okb g k && match find (is_user_at p old) (g_blocks g) with Some _ => true | None => false end.
